@@ -2,6 +2,10 @@ package main
 
 import (
 	_ "verif/internal/props/c01"
+	_ "verif/internal/props/c02"
+	_ "verif/internal/props/c03"
+	_ "verif/internal/props/c04"
+	_ "verif/internal/props/c06"
 	_ "verif/internal/props/c15"
 	_ "verif/internal/props/c16"
 	_ "verif/internal/props/c18"
